@@ -682,6 +682,8 @@ func (st *State) initGhostsNamed(r string, name string) {
 			z = "((as const (Array Int Int)) 0)"
 		case "reals":
 			z = "((as const (Array Int Real)) 0.0)"
+		case "strs":
+			z = "((as const (Array Int Str)) str_empty)"
 		}
 		h := st.heapTermIn(st.heap, "ghost:"+g.Name, 1, sort)
 		st.heapSet("ghost:"+g.Name, fmt.Sprintf("(store %s %s %s)", h, r, z))
